@@ -1,4 +1,6 @@
 import MosnVerif.Lemmas.Updates
+import MosnVerif.Lemmas.UpdatesRm
+import MosnVerif.Lemmas.DumpScript
 /-!
 # C12 — runtime updates are coherent and reproducible from the dumped config (property theorems only)
 
@@ -191,6 +193,13 @@ theorem last_wins_listener (o : Oracle) (s : State) (hL : LInv s) (lc : Listener
 
 /-! ## removed objects are gone -/
 
+/-- five hosts `.1 … .5` and the 20 ordered pairs of distinct indices (for the witness below and the examples) -/
+def exAddr : Nat → String
+  | 1 => "10.0.0.1:80" | 2 => "10.0.0.2:80" | 3 => "10.0.0.3:80" | 4 => "10.0.0.4:80" | 5 => "10.0.0.5:80" | _ => "10.0.0.9:80"
+def exFive : List Host := [1, 2, 3, 4, 5].map (fun k => ⟨exAddr k, "", 1⟩)
+def exPairs : List (Nat × Nat) :=
+  ([1, 2, 3, 4, 5].flatMap (fun x => [1, 2, 3, 4, 5].map (fun y => (x, y)))).filter (fun p => p.1 != p.2)
+
 /-- **removed_gone (clusters)**: after a successful `RemovePrimaryCluster names` every named cluster is absent, live and in the
 store. -/
 theorem removed_gone_clusters (o : Oracle) (s : State) (hI : Inv o s) (names : List String)
@@ -221,24 +230,53 @@ theorem removed_stays_gone (o : Oracle) (s : State) (hI : Inv o s) (n : String) 
   have hl := runFrom_keeps_absent o ops h hno
   exact ⟨hl, (inv_runFrom ops hI).c_none n hl⟩
 
-/-- **removed_gone (hosts)**: after `RemoveClusterHosts c addrs` on an existing cluster no listed address is left, every other
-host is kept, live and stored. -/
+/-- **removed_gone (hosts)**: `RemoveClusterHosts c addrs` (`TriggerHostDel`) on an existing cluster, for EVERY address list —
+any length, any order, with duplicates, with addresses the cluster does not have: the call succeeds and the new host set, live
+and stored, is EXACTLY the old hosts whose address is not listed, in ascending address order (the deletions preserve the order
+of the sorted slice the searches rely on). `removeHosts` is the loop as written: Go's binary `sort.Search` with the regenerated
+predicate, the regenerated guard and the regenerated deletion statement(s), one iteration per listed address. -/
 theorem removed_gone_hosts (o : Oracle) (s : State) (hI : Inv o s) (c : String) (lc : LiveCluster) (addrs : List String)
     (hc : s.clusters c = some lc) :
-    ∃ hosts, (step o s (.removeHosts c addrs)).1.clusters c = some ⟨lc.tag, hosts⟩ ∧
-      (step o s (.removeHosts c addrs)).1.cstore c = some ⟨lc.tag, hosts⟩ ∧
-      (∀ h ∈ hosts, h.addr ∉ addrs) ∧
-      (∀ h, h ∈ hosts ↔ (h ∈ lc.hosts ∧ h.addr ∉ addrs)) := by
+    (step o s (.removeHosts c addrs)).2 = true ∧
+    (step o s (.removeHosts c addrs)).1.clusters c =
+      some ⟨lc.tag, (sortByAddr lc.hosts).filter (fun h => !decide (h.addr ∈ addrs))⟩ ∧
+    (step o s (.removeHosts c addrs)).1.cstore c =
+      some ⟨lc.tag, (sortByAddr lc.hosts).filter (fun h => !decide (h.addr ∈ addrs))⟩ ∧
+    (∀ h, h ∈ (sortByAddr lc.hosts).filter (fun h => !decide (h.addr ∈ addrs)) ↔ (h ∈ lc.hosts ∧ h.addr ∉ addrs)) := by
   have hI' := inv_step hI (.removeHosts c addrs)
-  obtain ⟨_, h2, _⟩ := updateHosts_some (removeHosts addrs) hc
+  obtain ⟨h1, h2, _⟩ := updateHosts_some (removeHosts addrs) hc
   have hnd := (hI.c_some c lc hc).2
-  refine ⟨removeHosts addrs lc.hosts, h2, (hI'.c_some c _ h2).1, ?_, ?_⟩
-  · intro h hm
-    rw [removeHosts_eq addrs lc.hosts hnd] at hm
-    simpa using (List.mem_filter.mp hm).2
-  · intro h
-    rw [removeHosts_eq addrs lc.hosts hnd, List.mem_filter, (sortByAddr_perm lc.hosts).mem_iff]
-    simp
+  have h2' : (step o s (.removeHosts c addrs)).1.clusters c =
+      some ⟨lc.tag, (sortByAddr lc.hosts).filter (fun h => !decide (h.addr ∈ addrs))⟩ := by
+    rw [← removeHosts_eq addrs lc.hosts hnd]; exact h2
+  refine ⟨h1, h2', (hI'.c_some c _ h2').1, ?_⟩
+  intro h
+  rw [List.mem_filter, (sortByAddr_perm lc.hosts).mem_iff]
+  simp
+
+/-- … so the ORDER of the listed addresses (and listing one twice) never matters: two lists naming the same addresses leave the
+same host set, live and stored. -/
+theorem removed_gone_hosts_any_order (o : Oracle) (s : State) (hI : Inv o s) (c : String) (lc : LiveCluster)
+    (addrs addrs' : List String) (hc : s.clusters c = some lc) (hsame : ∀ a, a ∈ addrs ↔ a ∈ addrs') :
+    (step o s (.removeHosts c addrs)).1.clusters c = (step o s (.removeHosts c addrs')).1.clusters c ∧
+    (step o s (.removeHosts c addrs)).1.cstore c = (step o s (.removeHosts c addrs')).1.cstore c := by
+  obtain ⟨_, h2, h3, _⟩ := removed_gone_hosts o s hI c lc addrs hc
+  obtain ⟨_, h2', h3', _⟩ := removed_gone_hosts o s hI c lc addrs' hc
+  have : (fun h : Host => !decide (h.addr ∈ addrs)) = (fun h : Host => !decide (h.addr ∈ addrs')) := by
+    funext h; simp [hsame h.addr]
+  rw [h2, h3, h2', h3', this]
+  exact ⟨rfl, rfl⟩
+
+/-- **swap_with_last_leaves_host** (negative witness, machine-checked): the same loop with the deletion "move the LAST host
+into the slot and shorten the slice" un-sorts the slice, and the search for a later address of the same call misses it: removing
+`[.1, .2]` from five hosts leaves `.2` in the host set, `[.2, .1]` happens to work, and exactly 5 of the 20 ordered pairs of
+distinct addresses fail. (The regenerated deletion is the order-preserving one; `removed_gone_hosts` is about it.) -/
+theorem swap_with_last_leaves_host :
+    (removeHostsWith swapLastDelete [exAddr 1, exAddr 2] exFive).map (·.addr) = [exAddr 5, exAddr 2, exAddr 3, exAddr 4] ∧
+    (removeHostsWith swapLastDelete [exAddr 2, exAddr 1] exFive).map (·.addr) = [exAddr 4, exAddr 5, exAddr 3] ∧
+    (removeHosts [exAddr 1, exAddr 2] exFive).map (·.addr) = [exAddr 3, exAddr 4, exAddr 5] ∧
+    exPairs.filter (fun p => (removeHostsWith swapLastDelete [exAddr p.1, exAddr p.2] exFive).any
+      (fun h => h.addr == exAddr p.1 || h.addr == exAddr p.2)) = [(1, 2), (1, 5), (2, 3), (2, 5), (3, 4)] := by decide
 
 /-- **removed_gone (routes)**: a successful `RemoveAllRoutes` on a known router empties the selected virtual host, in the live
 table and in the stored configuration, at the same index. -/
@@ -383,6 +421,93 @@ theorem spec_holds_on_model_nil (o : Oracle) (rnames cnames lnames : List String
   rw [Bool.and_eq_true]
   exact ⟨spec_coherent_on_model o [] rnames cnames lnames res, rfl⟩
 
+/-- the predicate of the `rm` cases (one multi-address `RemoveClusterHosts` call: succeeded, live hosts = the initial addresses
+not listed, each once, stored = live, nothing listed still served) is true of the model's observation for EVERY host list
+(duplicates included: `NewHostSet` keeps the first) and EVERY address list. -/
+theorem spec_rm_holds_on_model (o : Oracle) (hosts : List Host) (addrs : List String) :
+    Spec.rmHolds (hosts.map (·.addr)) addrs (rmObserve o hosts addrs) = true :=
+  rmHolds_on_model o hosts addrs
+
+/-! ## the persisted file: every update reaches the dumped file (`DumpConfig` / `getDump` / `setDump`, `auto_config` on)
+
+`Model/DumpProto`: the effective config and the file are version numbers, `dumping` is the shared flag, the dumper and any number
+of mutators run the REGENERATED decision trees (`Gen.DumpProto.dumpConfig`, `setDump`) one atomic action per schedule entry;
+file writes succeed or fail as the schedule says. -/
+section dump
+open MosnVerif.Model.DumpProto MosnVerif.Gen.DumpProto
+
+/-- the regenerated `DumpConfig` and `setDump` have the discipline the theorems below need (`disc`: a request that was taken away
+— flag cleared — is always followed, in the same round, by a snapshot and a successful write of it, or the flag is raised again;
+`quietOk`: an undisturbed round started with a pending request ends with a current file; `setOk`: a request leaves the flag
+raised), every writer of the effective config except `Reset` / `SetMosnConfig` requests a dump after its writes, `tryDump` is
+gated by `auto_config` only, and the snapshot is taken under the config read lock. -/
+theorem dump_protocol_discipline : protocolOk = true := by decide
+
+/-- **file behind ⇒ request pending** (the invariant): for every dump-round program and request program with the discipline, every
+number of mutators and EVERY schedule (updates landing at any point of a dump round, failing writes): whenever the dumper is
+between two rounds and no mutator is inside its request, a file that is not the effective config has the flag raised — the
+next round will dump. -/
+theorem dump_file_behind_flag_set (prog setp : Prog) (hd : disc .clean false prog = true) (hs : setOk setp = true)
+    (sched : List Ev) (hidle : (run (initConf prog setp) sched).d.rest = .done)
+    (hm : ∀ t, (run (initConf prog setp) sched).m t = .idle)
+    (hne : (run (initConf prog setp) sched).file ≠ (run (initConf prog setp) sched).live) :
+    (run (initConf prog setp) sched).flag = 1 := by
+  rcases behind_flag (inv_run (inv_init prog setp hd hs) sched) hidle hm with h | h
+  · exact absurd h hne
+  · exact h
+
+/-- **dump_eventually_current**: for every schedule `sched` (any history of updates and dump rounds, interleaved action by
+action), once it has brought the dumper between two rounds with no mutator inside a request, ONE more dump round that runs to
+completion with no further update and a successful write leaves file = effective config. -/
+theorem dump_eventually_current (prog setp : Prog) (hd : disc .clean false prog = true) (hq : quietOk prog = true)
+    (hs : setOk setp = true) (sched : List Ev) (hidle : (run (initConf prog setp) sched).d.rest = .done)
+    (hm : ∀ t, (run (initConf prog setp) sched).m t = .idle) :
+    (run (run (initConf prog setp) sched)
+        (.dump true :: List.replicate (quietLen prog (run (initConf prog setp) sched).flag) (.dump true))).file =
+      (run (initConf prog setp) sched).live ∧
+    (run (run (initConf prog setp) sched)
+        (.dump true :: List.replicate (quietLen prog (run (initConf prog setp) sched).flag) (.dump true))).d.rest = .done := by
+  have hp : (run (initConf prog setp) sched).prog = prog := (run_progs _ sched).1
+  have := quiet_round_current (inv_run (inv_init prog setp hd hs) sched) (by rw [hp]; exact hq) hidle hm
+  rw [hp] at this
+  exact ⟨this.1.trans this.2.2, this.2.1⟩
+
+/-- … for the code as it is (regenerated programs). -/
+theorem dump_eventually_current_mosn (sched : List Ev)
+    (hidle : (run (initConf dumpConfig setDump) sched).d.rest = .done)
+    (hm : ∀ t, (run (initConf dumpConfig setDump) sched).m t = .idle) :
+    (run (run (initConf dumpConfig setDump) sched)
+        (.dump true :: List.replicate (quietLen dumpConfig (run (initConf dumpConfig setDump) sched).flag) (.dump true))).file =
+      (run (initConf dumpConfig setDump) sched).live :=
+  (dump_eventually_current dumpConfig setDump (by decide) (by decide) (by decide) sched hidle hm).1
+
+-- non-vacuity: an update lands between the snapshot and the write of a round; the schedule ends idle with the file behind and
+-- the flag raised; the next round makes the file current
+example :
+    let c := run (initConf dumpConfig setDump) [.upd 1, .upd 1, .upd 1, .dump true, .dump true, .dump true, .upd 2, .upd 2, .upd 2, .dump true]
+    c.d.rest = .done ∧ c.m 1 = .idle ∧ c.m 2 = .idle ∧ c.file = 1 ∧ c.live = 2 ∧ c.flag = 1 ∧
+    (run c (.dump true :: List.replicate (quietLen dumpConfig c.flag) (.dump true))).file = 2 := by decide
+
+/-- **clear_after_write_loses_update** (negative witness, machine-checked): a round that only READS the flag at its start and
+clears it AFTER the write violates the discipline, and the schedule "round starts, reads the flag, snapshots; an update lands
+and raises the (already raised) flag; the round writes and clears the flag" ends between two rounds, all mutators idle, with the
+file behind the effective config and NO request pending: the next round does nothing, the update is never dumped. -/
+theorem clear_after_write_loses_update :
+    disc .clean false clearAfterWrite = false ∧
+    (let c := run (initConf clearAfterWrite setDump)
+        [.upd 1, .upd 1, .upd 1, .dump true, .dump true, .dump true, .upd 2, .upd 2, .upd 2, .dump true, .dump true]
+     c.d.rest = .done ∧ c.m 1 = .idle ∧ c.m 2 = .idle ∧ c.file = 1 ∧ c.live = 2 ∧ c.flag = 0 ∧
+     (run c [.dump true, .dump true]).d.rest = .done ∧ (run c [.dump true, .dump true]).file = 1) := by decide
+
+/-- the predicate of the `dump` cases (after every round: file behind ⇒ request pending; a round with no update inside and a
+successful write leaves the file current) is true of the model's observations of EVERY script of updates and rounds (updates
+injected before / after the snapshot, failing writes). -/
+theorem spec_dump_holds_on_model (items : List Item) :
+    Spec.dumpHolds items (runScript (initConf dumpConfig setDump) items) = true :=
+  dumpHolds_runScript items _ (inv_init _ _ (by decide) (by decide)) (by decide) ⟨rfl, fun _ => rfl⟩
+
+end dump
+
 /-! ## non-vacuity: concrete histories exercising the hypotheses -/
 section examples
 /-- a simple concrete oracle (first virtual host listing the domain); the driver's `exOracle` works on lower-cased strings,
@@ -409,6 +534,10 @@ example : ((run exOracle hist).rstore "r").map (fun c => c.vhosts.map (fun v => 
 -- endpoints_union's hypothesis (cluster exists) and a 3-locality assignment with a duplicate address across localities
 example : (run exOracle (hist ++ [.xdsEndpoints [("c", [[⟨"10.0.0.1:1", some 5⟩], [⟨"10.0.0.2:1", none⟩, ⟨"10.0.0.1:1", some 300⟩], [⟨"10.0.0.3:1", some 0⟩]])]])).clusters "c"
     = some ⟨1, [⟨"10.0.0.1:1", "", 5⟩, ⟨"10.0.0.2:1", "", 0⟩, ⟨"10.0.0.3:1", "", 1⟩]⟩ := by decide
+-- removed_gone_hosts: a multi-address call in descending order with a duplicate and an absent address, on hosts given unsorted
+example : (run exOracle [.addOrUpdateCluster "c" 1 [], .updateHosts "c" exFive.reverse,
+      .removeHosts "c" [exAddr 4, exAddr 2, exAddr 9, exAddr 4, exAddr 1]]).clusters "c" =
+    some ⟨1, [⟨exAddr 3, "", 1⟩, ⟨exAddr 5, "", 1⟩]⟩ := by decide
 -- removed_gone_clusters / removed_stays_gone hypotheses
 example : (step exOracle (run exOracle hist) (.removeClusters ["c"])).2 = true := by decide
 example : single (.xdsEndpoints [("c", [[], []])]) ∧ addsCluster "c" (.updateHosts "c" []) = false := by decide
